@@ -77,8 +77,26 @@ class SchemaCollection(UnicodeMixin):
             self.children.append(schema)
             self.namespaces[key] = schema
         else:
+            self.__keep_element_form(schema.root, existing.root)
             existing.root.children += schema.root.children
             existing.root.nsprefixes.update(schema.root.nsprefixes)
+
+    @staticmethod
+    def __keep_element_form(root, target):
+        """
+        Local elements of a consolidated schema node get built under the
+        target node's elementFormDefault: give them their own node's default
+        explicitly when the two differ.
+
+        """
+        form = root.get("elementFormDefault") or "unqualified"
+        if form == (target.get("elementFormDefault") or "unqualified"):
+            return
+        for node in root.branch():
+            if node.name != "element" or node.parent is root:
+                continue
+            if node.get("ref") is None and node.get("form") is None:
+                node.set("form", form)
 
     def load(self, options, loaded_schemata):
         """
